@@ -117,6 +117,10 @@ CpNotBlocked(honest, leaf) ==
     (Cardinality(cfg.liars) < Required /\ Cardinality(hp) >= Required) =>
         (Len(cpFinal) - 1) * Interval + 2 * Interval > Num(world, leaf)
 
+\* the latest hashes stored for peer p / the cached hashes are the true ones of the chain ending in block t
+LatestTrue(p, t) == \A i \in 1..Len(pf[p].latest[2]) : pf[p].latest[2][i] = AncAt(world, t, pf[p].latest[1] + i)
+CachedTrue(t) == \A i \in 1..Len(cached[2]) : cached[2][i] = AncAt(world, t, cached[1] * Interval + i)
+
 QuiescentEv(a) ==
     /\ UNCHANGED psCore /\ PipeUnchanged
     /\ ((Quiet /\ ~Tainted) => Complete)
@@ -163,8 +167,11 @@ Step(r) ==
       [] r.ev = "FilterHashes" -> \* when the cached hashes are complete the handler calls try_send_get_block_filters,
                                  \* which may recover the earliest matched record like the filters tick
                                  /\ (UNCHANGED psCore /\ PipeUnchanged) \/ (mmem' # mmem /\ FilterTick0)
+                                 \* the peer's latest hashes / the cached hashes and the verdict are the specified ones
+                                 /\ RecvFilterHashes(r.a.p, [start |-> r.a.start, parent |-> r.a.parent, hs |-> r.a.hs])
                                  \* an honest answer to the client's own request is never punished
-                                 /\ r.a.kind = "honest" => out'.ban = {}
+                                 \* (unless it contradicts what the peer itself made the client store before)
+                                 /\ (r.a.kind = "honest" /\ LatestTrue(r.a.p, r.a.tip) /\ CachedTrue(r.a.tip)) => out'.ban = {}
       [] r.ev = "Filters"    -> /\ RecvFilters(r.a.p, [start |-> r.a.start, fs |-> r.a.fs, hs |-> r.a.hs])
                                 /\ (subst' # subst => PrintT(<<"KNOWN-FINDING", "KF-C06-blockhash", subst' \ subst>>))
       [] r.ev = "BlocksProof" -> BlocksProofEv(r.a)
